@@ -132,6 +132,7 @@ def correspondence(ctx):
         finally:
             C.rmtree(base)
     equal_tips(ctx, r)
+    repeated_layouts(ctx, r)
     big_index(ctx, r)
     adjacent_results(ctx, r)
 
@@ -291,7 +292,61 @@ def equal_tips(ctx, r):
             sd.close()
 
 
+def repeated_layouts(ctx, r):
+    """arbitrary physical layouts (several blk files in any numbering, bytes that are no record in front of the first block of a
+    file, preallocated tails, magics that are never read, unused files, foreign index keys), headers with timestamps ahead of this
+    machine's clock, with and without --verify: equal to the model's answer, and the same on every one of a handful of reruns —
+    whatever a run consults besides the data directory and the options (the clock, a per-process hash seed) shows as a difference"""
+    import time
+    from .. import gen_layout as GL
+    for i in range(ctx.n(15, 80)):
+        coin = K.COINS[i % 8]
+        cb = CALLBACKS[i % 5]
+        blocks = GC.gen_chain(r, coin, r.randrange(3, 8), max_txs=2, max_io=3)
+        k = r.randrange(1, len(blocks))
+        blocks[k].time = r.choice([0xffffffff, int(time.time()) + 2 * 3600 + r.choice([5, 60, 3600]), 4102444800])
+        prev = blocks[k - 1].hash()
+        for b in blocks[k:]:
+            b.prev = prev
+            prev = b.hash()
+        s = GL.layout(r, coin, blocks, callback=cb)
+        if i % 2 == 0:
+            s.verify, s.start = True, 1
+        s.meta = dict(s.meta, layouts=i)
+        impl0, model0 = bb.check(ctx, "repeated-layouts:" + cb, [s], comparators(cb), nontrivial=lambda s, m: True)
+        ref = canon(cb, impl0[0])
+        sd = bb.SharedDir(s)
+        try:
+            for rep in range(ctx.n(5, 12)):
+                d = sd.clone()
+                try:
+                    res = s.run_impl(datadir=os.path.join(d, "data"))
+                finally:
+                    C.rmtree(d)
+                ctx.mark(("layouts", i, rep), True)
+                ctx.families["repeated-layouts-rerun"] += 1
+                if res.exit != impl0[0].exit or canon(cb, res) != ref:
+                    ctx.disagree("repeated-layouts-rerun", dict(bb.describe(s), repetition=rep), {"exit": res.exit, "first_run_exit": impl0[0].exit, "differs_from_first_run": True, "stderr": res.stderr.decode(errors="replace")[-200:]},
+                                 {"expected": "identical on every run"}, True, {"scenario": bb.scenario_dump(s), "observable": "rerun-identical"})
+                    break
+        finally:
+            sd.close()
+
+
 def replay(ctx, rep, corpus=None):
     d = rep.get("failing_input", rep)
     cb = (d.get("scenario") or {}).get("callback", "csvdump")
     bb.replay_scenario(ctx, rep, comparators(cb))
+    if d.get("observable") == "rerun-identical" and d.get("scenario"):
+        # a difference between runs: the scenario is run a dozen times more, each compared with the first
+        s = bb.scenario_load(d["scenario"])
+        ref = None
+        for k in range(12):
+            res = s.run_impl()
+            ctx.families["replay-rerun"] += 1
+            if ref is None:
+                ref = (res.exit, canon(cb, res))
+            elif (res.exit, canon(cb, res)) != ref:
+                ctx.disagree("replay-rerun", dict(bb.describe(s), repetition=k), {"exit": res.exit, "first_run_exit": ref[0], "differs_from_first_run": True}, {"expected": "identical on every run"}, True,
+                             {"scenario": d["scenario"], "observable": "rerun-identical"})
+                break
